@@ -120,7 +120,7 @@ class C20(Check):
             "atoms): save_ocf, then load_ocf in the same process and in a FRESH interpreter (one sub-process per task, which first "
             "allocates unrelated formula nodes): signature, ranks as saved, ranks after lazy continuation in a rotated order and "
             "after completion, impacts, acceptance of a query list and of the object's own conditionals must equal the "
-            "original's. (B) impacts: export/import in json and pickle, save_impacts/load_impacts, init_with_impacts(_list) round "
+            "original's. (B) impacts (also vectors of 9..24 pairwise distinct components on list-built objects): export/import in json and pickle, save_impacts/load_impacts, init_with_impacts(_list) round "
             "trip unchanged and rebuild the same ranking. (C) metadata: 6 JSON-representable dictionaries x {json, pickle, suffix "
             "inferred from .json/.pkl/.pickle, explicit fmt} round trip identically. (D) crash points: save_ocf, "
             "export_impacts and save_metadata with the target's open failing and with the k-th write failing for EVERY k of the "
@@ -150,6 +150,7 @@ class C20(Check):
         out.append(("custom", scopes.SIG2, (1, None, 0, None)))
         out.append(("metadata",))
         out.append(("empty-base",))
+        out.append(("long-impacts",))
         for conds, cls in [r for r in reps2 if r[1] == "strong"][:3]:
             out.append(("crash", scopes.SIG2, conds))
         for conds, cls in [r for r in reps3 if r[1] == "strong"][:2]:
@@ -169,6 +170,8 @@ class C20(Check):
                 self.metadata(res, tmp)
             elif task[0] == "empty-base":
                 self.empty_base(res, tmp)
+            elif task[0] == "long-impacts":
+                self.long_impacts(res, tmp)
             else:
                 self.crash(res, tmp, task[1], task[2])
         finally:
@@ -403,6 +406,54 @@ class C20(Check):
                 res.nontrivial.add(hash((tuple(sig), "empty-base")))
         res.samples.append({"empty_base_objects": 2})
 
+    def long_impacts(self, res, tmp):
+        """Impact vectors with 9..24 components (two-digit positions), pairwise distinct values, on objects built from a list
+        (no solver involved): every export/import channel must give back the same vector in the same order and the same ranking."""
+        from inference.preocf import RandomMinCRepPreOCF
+
+        sig = scopes.SIG3
+        queries = QUERIES3
+        for n in (9, 10, 11, 12, 13, 21, 24):
+            conds = list(scopes.L3[:n])
+            for variant, imp in (("ascending", [i + 1 for i in range(n)]), ("descending", [n - i for i in range(n)]),
+                                 ("mixed", [(7 * i + 3) % (n + 1) for i in range(n)])):
+                case = {"sig": sig, "conds": [forms.ctxt(x) for x in conds], "conds_f": [], "kind": "crep-list", "config": "long-impacts",
+                        "impacts": imp}
+                res.evals += 1
+                probs = []
+                try:
+                    o = RandomMinCRepPreOCF.init_with_impacts_list(drive.mkbb(sig, conds), list(imp))
+                    want = snapshot(o, queries)
+                    if o.save_impacts() != imp:
+                        probs.append("save_impacts() = %r" % (o.save_impacts(),))
+                    for fmt, suffix in (("json", ".json"), ("pickle", ".pkl")):
+                        path = os.path.join(tmp, "long%d%s" % (n, suffix))
+                        o.export_impacts(path, fmt=fmt)
+                        o2 = RandomMinCRepPreOCF.init_with_impacts(drive.mkbb(sig, conds), path)
+                        if o2.save_impacts() != imp or snapshot(o2, queries) != want:
+                            probs.append("init_with_impacts(%s): %r" % (fmt, o2.save_impacts()))
+                        o3 = RandomMinCRepPreOCF.init_with_impacts_list(drive.mkbb(sig, conds), [0] * n)
+                        o3.import_impacts(path)
+                        o3.ranks = dict.fromkeys(o3.ranks, None)
+                        if o3.save_impacts() != imp or snapshot(o3, queries) != want:
+                            probs.append("import_impacts(%s): %r" % (fmt, o3.save_impacts()))
+                    o4 = RandomMinCRepPreOCF.init_with_impacts_list(drive.mkbb(sig, conds), [0] * n)
+                    o4.load_impacts(list(o.save_impacts()))
+                    o4.ranks = dict.fromkeys(o4.ranks, None)
+                    if snapshot(o4, queries) != want:
+                        probs.append("load_impacts(save_impacts()) differs")
+                    path = os.path.join(tmp, "long%d-ocf.pkl" % n)
+                    o.save_ocf(path)
+                    self.fresh(res, tmp, [{"path": path, "queries": queries, "lazy_order": []}], {path: (case, dict(o.ranks), want)})
+                except Exception as e:  # noqa: BLE001
+                    res.violation(self.id, "impacts-raises", dict(case, channel=variant), "round trip of a long impact vector", drive.exc_obs(e))
+                    continue
+                if probs:
+                    res.violation(self.id, "impacts-differ", dict(case, channel=variant), {"impacts": imp}, probs)
+                else:
+                    res.nontrivial.add(hash((n, variant, "long-impacts")))
+        res.samples.append({"long_impact_vectors": 21})
+
     def metadata(self, res, tmp):
         obj0 = mk_custom(scopes.SIG2, (0, 1, 2, 3))
         for i, meta in enumerate(META_MENU):
@@ -529,6 +580,8 @@ class C20(Check):
                 self.metadata(r, tmp)
             elif cs["config"] == "empty-base":
                 self.empty_base(r, tmp)
+            elif cs["config"] == "long-impacts":
+                self.long_impacts(r, tmp)
             elif cs["config"] == "custom":
                 self.roundtrip_custom(r, tmp, cs["sig"], tuple(cs["prior"]))
             else:
